@@ -258,14 +258,16 @@ func c04Build(kind int, cs []c04Cont) *Bitmap {
 // ---------------------------------------------------------------------------------------------
 // Reference encoder for the official Roaring format, from the specification
 // (github.com/RoaringBitmap/RoaringFormatSpec):
-//   cookie: SERIAL_COOKIE_NO_RUNCONTAINER=12346 (uint32) followed by the container count (uint32); or,
-//           when run containers are present, SERIAL_COOKIE=12347 in the low 16 bits and count-1 in the
-//           high 16 bits of one uint32, followed by a bitset of ceil(count/8) bytes marking run containers;
-//   descriptive header: per container key (uint16) and cardinality-1 (uint16);
-//   offset header: per container the byte offset of its data from the start of the stream (uint32) —
-//           present with the no-run cookie always, with the run cookie iff count >= NO_OFFSET_THRESHOLD=4;
-//   containers: run = number of runs (uint16) then (start, length-1) uint16 pairs; otherwise an array of
-//           sorted uint16 when cardinality <= 4096, else a bitset of 1024 uint64. All little endian.
+//
+//	cookie: SERIAL_COOKIE_NO_RUNCONTAINER=12346 (uint32) followed by the container count (uint32); or,
+//	        when run containers are present, SERIAL_COOKIE=12347 in the low 16 bits and count-1 in the
+//	        high 16 bits of one uint32, followed by a bitset of ceil(count/8) bytes marking run containers;
+//	descriptive header: per container key (uint16) and cardinality-1 (uint16);
+//	offset header: per container the byte offset of its data from the start of the stream (uint32) —
+//	        present with the no-run cookie always, with the run cookie iff count >= NO_OFFSET_THRESHOLD=4;
+//	containers: run = number of runs (uint16) then (start, length-1) uint16 pairs; otherwise an array of
+//	        sorted uint16 when cardinality <= 4096, else a bitset of 1024 uint64. All little endian.
+//
 // run[i] says whether container i is stored as a run container.
 func c04EncodeOfficial(cs []c04Cont, run []bool) []byte {
 	n := len(cs)
